@@ -374,6 +374,15 @@ func (vc *VC) keepPrefix(st *State) string {
 	return ""
 }
 
+func (b *Block) mentions(s string) bool {
+	for _, c := range b.Ensures {
+		if strings.Contains(c.Text, s) {
+			return true
+		}
+	}
+	return false
+}
+
 func (b *Block) HasUse(u string) bool {
 	for _, x := range b.Uses {
 		if x == u {
@@ -644,6 +653,18 @@ func (vc *VC) applyContract(st *State, fr *Frame, blk *Block, callee *ssa.Functi
 		}
 	}
 	vc.bumpMark(st)
+	if blk.mentions("ncalls(") {
+		// the callee makes dynamic calls: ghost call history advances as its contract says
+		cn := vc.fresh("callsN", SInt)
+		vc.assume(st, app(">=", cn.S, st.callsN))
+		st.callsN = cn.S
+		ca := vc.fresh("callsA", "(Array Int Int)")
+		vc.assume(st, fmt.Sprintf("(forall ((i Int)) (! (=> (< i %s) (= (select %s i) (select %s i))) :pattern ((select %s i))))", pre.callsN, ca.S, pre.callsA, ca.S))
+		st.callsA = ca.S
+		cr := vc.fresh("callsR", "(Array Int Int)")
+		vc.assume(st, fmt.Sprintf("(forall ((i Int)) (! (=> (< i %s) (= (select %s i) (select %s i))) :pattern ((select %s i))))", pre.callsN, cr.S, pre.callsR, cr.S))
+		st.callsR = cr.S
+	}
 	res := vc.freshResult(st, callee.Signature)
 	env2 := newEnv(env)
 	sig := callee.Signature
